@@ -81,6 +81,8 @@ func directed() map[string]*ach.File {
 		bh.CompanyName = "Café Ñandú SA"
 		bh.CompanyIdentification = "1234567IAT"
 	})
+	// a company named IATCOR: the reader recognises IAT notification-of-change batches by that text in columns 4..20
+	out["company-name-iatcor"] = mk(1, nil, func(bh *ach.BatchHeader) { bh.CompanyName = "IATCOR" })
 	// discretionary data / identification with inner blanks only (control)
 	out["plain"] = mk(3, nil, nil)
 	for k, v := range out {
